@@ -37,6 +37,21 @@ C = {
          "Round-trip through independent decoders; malformed classes the property lists must be refused.", "4 §C16", "only the malformed classes the property lists are demanded"),
  "C17": ("exhaustive 256x256 state/byte table + generated operation sequences; oracle: i128 reference sum",
          "The single-byte operations are decided exhaustively; slice and sink operations by generated sequences.", "4 §C17", "none"),
+ "C06": ("generated sort-correct term trees built as real nested crate objects; oracle: independent recursive-descent AML parser, parse tree == normal form of the built tree",
+         "Search over term trees of every exported constructor (depth <= 6, filler-steered sizes at every PkgLength boundary and nesting level) plus every length-prefixed kind swept through 0..4200 / 2^20; the parser is written from the grammar and opcode table of the specification and is told only method arities.",
+         "4 §C06", "the parser covers the grammar subset of DESIGN Appendix B; trees are sort-correct AML"),
+ "C10": ("generated descriptors/templates; oracle: independent resource walker + per-field decoder against the caller's values",
+         "All flag combinations of every descriptor kind enumerated; templates of 0..470 descriptors generated across the PkgLength and buffer-size width boundaries; the walker steps by the descriptors' own length fields.",
+         "4 §C10", "descriptor layouts transcribed from ACPI 6.5 section 6.4 (aml/res.rs)"),
+ "C14": ("differential across six sink implementations + double serialisation + raw-form comparison, over generated tables, entries and AML trees",
+         "Every generated object is serialised into the vector sink twice and into a byte-only sink, an all-methods logging sink, the checksum sink, the generic-table sink and the package-builder sink; as_bytes() of every add_structure-able type is compared with its serialised form.",
+         "4 §C14", "none beyond the generators of C01-C06"),
+ "C15": ("differential between alternative construction paths, exhaustive over body sizes 0..4200 and 2^20 +- 16, generated child lists",
+         "Scope::raw vs Scope::new, PackageBuilder vs Package, String vs &'static str, usize vs u64: byte equality, every body size through the PkgLength width boundaries enumerated.",
+         "4 §C15", "neither path is trusted; absolute correctness is C06/C07's"),
+ "C18": ("directed boundary sweep of 27 narrowing sites at maximum / maximum+1 / far beyond, in two build profiles (overflow checks off and on); oracle: must panic above the maximum, framing oracles of C03/C06 at the maximum",
+         "Every encoded count/length field with a caller-controlled source is driven to its field maximum (control: accepted and correctly framed) and beyond (must panic) in the shipping arithmetic profile and, via a second binary, in the overflow-checking profile.",
+         "4 §C18", "sizes needing >= 4 GiB of data are out of reach; the site catalogue is DESIGN §C18's"),
 }
 checks = []
 for pid in ids:
